@@ -57,6 +57,8 @@ def _conc_rhs(rhs):
 
 
 def _eq(x, y):
+    if isinstance(x, bool) != isinstance(y, bool):
+        return False
     if isinstance(x, float) and x != x:
         return isinstance(y, float) and y != y
     return type(x) is type(y) and x == y or (not isinstance(x, str) and not isinstance(y, str) and x == y)
